@@ -121,6 +121,7 @@ type Policy struct {
 	RestartAt []int  `json:"restart_at"`           // stop+reopen after these block indexes
 	Reader    bool   `json:"reader"`               // slow disk + concurrent API reader: while the block's state commit waits at the stalled store, every state key and account the block changed is read through the read-write ledger (what the JSON-RPC / gRPC account and storage queries do)
 	Compete   int    `json:"compete,omitempty"`    // block replacement at the head: chance (per mille) per block that the replica first executes a competing block of the same height (the block without one of its transactions) and then receives the real one, which takes the executor through its rollback of the head and the re-execution (what a node sees when the ordering layer hands it a height again after a restart or a fork)
+	Burst     int    `json:"burst,omitempty"`      // back-to-back delivery: the replica lags and is then handed this many blocks at once, each before the previous one is executed (what a node sees when ordering or block sync runs ahead of execution: the executor's pre-execution stage works on block N+1 while block N is still being executed)
 	ApiReader int    `json:"api_reader,omitempty"` // concurrent account-API reader at the yield points of the flush/commit path: chance (per mille) per yield point that a balance query (coreapi GetAccount: Ledger.Copy().GetOrCreateAccount) runs exactly there
 }
 
@@ -150,6 +151,7 @@ type replica struct {
 	sub     event.Subscription
 	height  uint64
 	rt      *router.InterchainRouter
+	backlog []*pb.CommitEvent // Policy.Burst: blocks the reference has executed and this replica has not been handed yet
 }
 
 func scratchDir() string {
@@ -310,6 +312,37 @@ func (r *replica) execute(ev *pb.CommitEvent, watchdog time.Duration) (*blockRes
 	case <-time.After(watchdog):
 		return nil, errWedged
 	}
+}
+
+// executeBurst hands the replica all given blocks back to back (none waits for the previous one to be executed)
+// and then collects the executed events in order.
+func (r *replica) executeBurst(evs []*pb.CommitEvent, watchdog time.Duration) ([]*blockResult, error) {
+	for _, ev := range evs {
+		r.exec.ExecuteBlock(cloneCommit(ev))
+	}
+	var got []events.ExecutedEvent
+	for range evs {
+		select {
+		case e := <-r.evCh:
+			got = append(got, e)
+		case <-time.After(watchdog):
+			return nil, errWedged
+		}
+	}
+	var out []*blockResult
+	for _, e := range got {
+		res := &blockResult{Height: e.Block.BlockHeader.Number, Hash: e.Block.BlockHash.String(), Header: e.Block.BlockHeader, Meta: e.InterchainMeta, TxHashes: e.TxHashList}
+		for _, h := range e.TxHashList {
+			rc, err := r.lg.GetReceipt(h)
+			if err != nil {
+				return out, fmt.Errorf("receipt of %s missing after execution: %w", h.String()[:10], err)
+			}
+			res.Receipts = append(res.Receipts, rc)
+		}
+		r.height = res.Height
+		out = append(out, res)
+	}
+	return out, nil
 }
 
 // competingBlock: the block of ev without its transaction number drop.
